@@ -28,6 +28,7 @@ pub enum Pt {
     Invoke(usize),
     Return(usize),
     Call(Call),
+    AfterDrop,
 }
 
 #[derive(Clone, Copy, Debug, PartialEq, Eq)]
@@ -129,6 +130,12 @@ impl Hook for SchedHook {
         None
     }
     fn after(&self, ev: &Event, ok: bool) -> Option<anyhow::Error> {
+        if ev.call == Call::Drop && WID.with(|w| w.get()).is_some() {
+            // a yield point right after the transaction has ended (before the request goes on to
+            // whatever it does outside the transaction)
+            self.0.park(Pt::AfterDrop);
+            return None;
+        }
         if let Some(id) = WID.with(|w| w.get()) {
             let mut g = self.0.m.lock().unwrap();
             match ev.call {
@@ -336,6 +343,8 @@ fn exec_front(f: &mut Front, client: Uuid, req: &Req) -> Resp {
 
 #[derive(Clone, Debug)]
 pub struct Observed {
+    /// the id argument each request was actually issued with, by role (nil, P<i>, N<k>, F)
+    pub args: Vec<String>,
     pub resp: Vec<Resp>,
     pub inv: Vec<u64>,
     pub ret: Vec<u64>,
@@ -452,6 +461,42 @@ fn abs_state(w: &World, created: &HashMap<usize, Uuid>) -> AbsState {
 
 pub trait Chooser {
     fn choose(&mut self, n_options: usize) -> usize;
+    /// choice with knowledge of which worker each option is (default: by count only)
+    fn choose_worker(&mut self, options: &[usize]) -> usize {
+        self.choose(options.len())
+    }
+}
+
+/// One-preemption schedules: workers run to completion in priority order, except that the
+/// first one is set aside after `at` of its steps and resumed only when nothing else can run.
+pub struct PreemptChooser {
+    pub prio: Vec<usize>,
+    pub at: usize,
+    pub victim_steps: usize,
+    pub taken: Vec<(usize, usize)>,
+}
+
+impl Chooser for PreemptChooser {
+    fn choose(&mut self, _n: usize) -> usize {
+        0
+    }
+    fn choose_worker(&mut self, options: &[usize]) -> usize {
+        let victim = self.prio[0];
+        let rank = |w: usize| -> usize {
+            let r = self.prio.iter().position(|x| *x == w).unwrap_or(self.prio.len());
+            if w == victim && self.victim_steps >= self.at {
+                usize::MAX
+            } else {
+                r
+            }
+        };
+        let (i, w) = options.iter().enumerate().min_by_key(|(_, w)| rank(**w)).map(|(i, w)| (i, *w)).unwrap();
+        if w == victim {
+            self.victim_steps += 1;
+        }
+        self.taken.push((i, options.len()));
+        i
+    }
 }
 
 pub struct DfsChooser {
@@ -505,6 +550,7 @@ pub fn execute(scn: &Scn, chooser: &mut dyn Chooser, probe: bool) -> Result<Obse
     let reqs = scn.reqs();
     let nreq = reqs.len();
     let results: Arc<Mutex<Vec<Option<(Resp, u64, u64)>>>> = Arc::new(Mutex::new(vec![None; nreq]));
+    let args_rec: Arc<Mutex<Vec<String>>> = Arc::new(Mutex::new(vec![String::new(); nreq]));
     let created: Arc<Mutex<HashMap<usize, Uuid>>> = Arc::new(Mutex::new(HashMap::new()));
     let mut handles = vec![];
     for wid in 0..n {
@@ -512,6 +558,7 @@ pub fn execute(scn: &Scn, chooser: &mut dyn Chooser, probe: bool) -> Result<Obse
         let world2 = world.clone();
         let results2 = results.clone();
         let created2 = created.clone();
+        let args2 = args_rec.clone();
         let mine: Vec<(usize, SReq)> = reqs.iter().enumerate().filter(|(_, (w, _, _))| *w == wid).map(|(k, (_, _, r))| (k, *r)).collect();
         let entry = scn.entry;
         handles.push(std::thread::spawn(move || {
@@ -532,6 +579,12 @@ pub fn execute(scn: &Scn, chooser: &mut dyn Chooser, probe: bool) -> Result<Obse
                 let inv = ctl2.park(Pt::Invoke(k));
                 let cr = created2.lock().unwrap().clone();
                 let req = concrete(&world2, k, r, &cr);
+                let arg_id = match &req {
+                    Req::AddVersion { parent, .. } | Req::GetChild { parent } => Some(*parent),
+                    Req::AddSnapshot { vid, .. } => Some(*vid),
+                    Req::GetSnapshot => None,
+                };
+                args2.lock().unwrap()[k] = arg_id.map(|i| symbolize(&world2, &cr, i)).unwrap_or_default();
                 let resp = std::panic::catch_unwind(std::panic::AssertUnwindSafe(|| exec_front(&mut front, world2.client, &req))).unwrap_or_else(|_| Resp::Error("panic".into()));
                 let ret = ctl2.park(Pt::Return(k));
                 if let Resp::AddOk { vid, .. } = &resp {
@@ -550,7 +603,7 @@ pub fn execute(scn: &Scn, chooser: &mut dyn Chooser, probe: bool) -> Result<Obse
     {
         let mut g = ctl.m.lock().unwrap();
         loop {
-            if t0.elapsed() > Duration::from_secs(std::env::var("VERIF_E2_WATCHDOG_S").ok().and_then(|s| s.parse().ok()).unwrap_or(60)) {
+            if t0.elapsed() > Duration::from_secs(std::env::var("VERIF_E2_WATCHDOG_S").ok().and_then(|s| s.parse().ok()).unwrap_or(25)) {
                 if std::env::var("VERIF_E2_TIMING").is_ok() {
                     eprintln!("STUCK st={:?} grant={:?} open={:?} active={:?} blocked_attempts={} overlap={} cand={:?} trace={:?}", g.st, g.grant, g.open, g.active, g.blocked_attempts, g.overlap_seen, cand_blocked, g.trace.iter().map(|(s, w, p)| format!("{s}:w{w}:{p:?}")).collect::<Vec<_>>());
                 }
@@ -611,14 +664,15 @@ pub fn execute(scn: &Scn, chooser: &mut dyn Chooser, probe: bool) -> Result<Obse
                 g = g2;
                 continue;
             }
-            let pick = if options.len() == 1 { 0 } else { chooser.choose(options.len()) };
+            let pick = if options.len() == 1 { 0 } else { chooser.choose_worker(&options) };
             let w = options[pick];
             // any granted worker may turn out to be waiting for the backend's lock (another
             // transaction is open, or an earlier waiter is still queued): watch it
-            if others_open(&g, w) || g.st.iter().any(|s| *s == St::Blocked) {
-                cand_blocked = Some(w);
-                cand_since = Instant::now();
-            }
+            // (any granted worker is watched: it may wait for a lock, a latch or a result that a parked
+            // worker holds; one that merely runs long is then scheduled around, which is harmless)
+            let _ = others_open(&g, w);
+            cand_blocked = Some(w);
+            cand_since = Instant::now();
             g.grant = Some(w);
             ctl.cv.notify_all();
         }
@@ -627,7 +681,7 @@ pub fn execute(scn: &Scn, chooser: &mut dyn Chooser, probe: bool) -> Result<Obse
         let _ = h.join();
     }
     if stuck {
-        return Err("execution did not finish within the watchdog (60 s)".into());
+        return Err("execution did not finish within the watchdog".into());
     }
     let g = ctl.m.lock().unwrap();
     let created = created.lock().unwrap().clone();
@@ -647,7 +701,9 @@ pub fn execute(scn: &Scn, chooser: &mut dyn Chooser, probe: bool) -> Result<Obse
     }
     let abs: Vec<String> = resp.iter().map(|r| abs_resp(&world, &created, r)).collect();
     let state = abs_state(&world, &created);
+    let args_final: Vec<String> = { let g2 = args_rec.lock().unwrap(); g2.clone() };
     Ok(Observed {
+        args: args_final,
         resp,
         inv,
         ret,
@@ -671,7 +727,7 @@ pub enum Step {
 }
 
 /// Execute the steps one at a time on a fresh world (same code, no overlap).
-pub fn sequential(scn: &Scn, order: &[Step]) -> Result<(Vec<String>, AbsState), String> {
+pub fn sequential(scn: &Scn, order: &[Step], args: &[String]) -> Result<(Vec<String>, AbsState), String> {
     let ctl = Ctl::new(scn.programs.len());
     let world = build_world(scn, &ctl).map_err(|e| format!("build: {e:#}"))?;
     let reqs = scn.reqs();
@@ -702,8 +758,23 @@ pub fn sequential(scn: &Scn, order: &[Step]) -> Result<(Vec<String>, AbsState), 
             }
             Step::Req(k) => {
                 let (w, _, r) = reqs[*k];
-                // a program's later request may quote what its earlier request created
-                let req = concrete(&world, *k, r, &created);
+                // the request is issued with the same argument (by role) as in the observed execution
+                let arg: Uuid = match args.get(*k).map(|s| s.as_str()).unwrap_or("") {
+                    "" | "nil" => Uuid::nil(),
+                    "F" => world.fresh,
+                    a if a.starts_with('P') => a[1..].parse::<usize>().ok().and_then(|i| world.prefix_ids.get(i).copied()).unwrap_or(world.fresh),
+                    a if a.starts_with('N') => match a[1..].parse::<usize>().ok().and_then(|i| created.get(&i).copied()) {
+                        Some(id) => id,
+                        None => return Err("order uses a version before it exists".into()),
+                    },
+                    _ => world.fresh,
+                };
+                let req = match r {
+                    SReq::Add(_) => Req::AddVersion { parent: arg, data: payload_for(*k) },
+                    SReq::Gcv(_) => Req::GetChild { parent: arg },
+                    SReq::Snap(_) => Req::AddSnapshot { vid: arg, data: payload_for(100 + *k) },
+                    SReq::GetSnap => Req::GetSnapshot,
+                };
                 let idx = if fronts.len() > 1 { w } else { 0 };
                 let rr = exec_front(&mut fronts[idx], world.client, &req);
                 if let Resp::AddOk { vid, .. } = &rr {
@@ -744,7 +815,7 @@ fn permutations(items: &[Step], ok_before: &dyn Fn(Step, Step) -> bool) -> Vec<V
 
 pub struct Oracle<'a> {
     pub scn: &'a Scn,
-    cache: HashMap<Vec<Step>, Result<(Vec<String>, AbsState), String>>,
+    cache: HashMap<(Vec<Step>, Vec<String>), Result<(Vec<String>, AbsState), String>>,
     pub seq_runs: u64,
 }
 
@@ -761,13 +832,14 @@ impl<'a> Oracle<'a> {
         Oracle { scn, cache: HashMap::new(), seq_runs: 0 }
     }
 
-    fn seq(&mut self, order: &[Step]) -> Result<(Vec<String>, AbsState), String> {
-        if let Some(r) = self.cache.get(order) {
+    fn seq(&mut self, order: &[Step], args: &[String]) -> Result<(Vec<String>, AbsState), String> {
+        let key = (order.to_vec(), args.to_vec());
+        if let Some(r) = self.cache.get(&key) {
             return r.clone();
         }
         self.seq_runs += 1;
-        let r = sequential(self.scn, order);
-        self.cache.insert(order.to_vec(), r.clone());
+        let r = sequential(self.scn, order, args);
+        self.cache.insert(key, r.clone());
         r
     }
 
@@ -786,7 +858,7 @@ impl<'a> Oracle<'a> {
             }
         };
         for p in permutations(&items, &must) {
-            if let Ok((abs, st)) = self.seq(&p) {
+            if let Ok((abs, st)) = self.seq(&p, &o.args) {
                 if abs == o.abs && st == o.state {
                     return Lin::Ok(p);
                 }
@@ -812,7 +884,7 @@ impl<'a> Oracle<'a> {
                 };
                 let perms = permutations(&items, &must);
                 for p in perms.iter().take(400) {
-                    if let Ok((abs, st)) = self.seq(p) {
+                    if let Ok((abs, st)) = self.seq(p, &o.args) {
                         if abs == o.abs && st == o.state {
                             return Lin::RelaxedOnly(p.clone());
                         }
